@@ -42,6 +42,13 @@ Definition trim_spec (trimblocks lstrip trimL trimR after before : bool) (val : 
   let v3 := if trimL then drop_leading is_tpl_space v2 else v2 in
   if trimR then drop_trailing is_tpl_space v3 else v3.
 
+(* The block options are those of the template that is executed (the last one of a chain
+   base <- ... <- child of "extends"); they are in force for a text iff the text belongs to one
+   of the templates of that chain: the executed template itself or any template it extends,
+   directly or not (pongo2 after fix D42; before, only the executed template's own texts).
+   [ids]: the identities of the templates of the chain; [owner]: the template the text is from. *)
+Definition owned_by_chain (ids : list N) (owner : N) : bool := existsb (fun i => i =? owner) ids.
+
 (* ---------- what the neighbours of a token say about it ---------- *)
 
 (* a delimiter written with the "-" marker ({{-, -}}, {%-, -%}) *)
